@@ -118,8 +118,8 @@ Proof. intros. apply outside_same_local; auto. Qed.
 Lemma run_app : forall c px l1 l2 s,
   run c px s (l1 ++ l2) = match run_state c px s l1 with Some s' => run c px s' l2 | None => false end.
 Proof.
-  induction l1 as [|[o obs] l1 IH]; intros l2 s; simpl; [reflexivity|].
-  destruct (step c px s o obs); auto.
+  induction l1 as [|[o obs] l1 IH]; intros l2 s; [reflexivity|].
+  cbn [app run run_state]. destruct (step c px s o obs); auto.
 Qed.
 
 (* after a global transaction has ended (no branch transaction is left open), the proxy is again the
@@ -149,6 +149,42 @@ Ltac accept_inv H :=
   | (if mall ?ps ?obs then _ else _) = _ => let M := fresh "M" in destruct (mall ps obs) eqn:M; [|discriminate]
   end.
 
+(* erasure acts on tags only, so it can be done on the patterns *)
+Definition pat_tag (p : pat) : N := fst (fst p).
+Definition erase_pats (b : bool) (ps : list pat) : list pat :=
+  filter (fun p => negb (is_extra b (pat_tag p, true, true))) ps.
+
+Lemma m1_tag : forall p e, m1 p e = true -> ev_tag e = pat_tag p.
+Proof.
+  intros [[t o] n] [[t' o'] n'] H. unfold m1 in H.
+  apply andb_prop in H. destruct H as [H _]. apply andb_prop in H. destruct H as [H _].
+  apply N.eqb_eq in H. unfold ev_tag, pat_tag. simpl. symmetry. exact H.
+Qed.
+
+Lemma is_extra_tag : forall b e p, ev_tag e = pat_tag p -> is_extra b e = is_extra b (pat_tag p, true, true).
+Proof. intros b e p H. unfold is_extra. rewrite H. reflexivity. Qed.
+
+Lemma mall_erase : forall b ps obs, mall ps obs = true -> mall (erase_pats b ps) (erase_extra b obs) = true.
+Proof.
+  induction ps as [|p ps IH]; intros [|e obs] H; try (simpl in H; discriminate); [reflexivity|].
+  change (m1 p e && mall ps obs = true) in H. apply andb_prop in H. destruct H as [H1 H2].
+  unfold erase_pats, erase_extra. simpl filter.
+  rewrite (is_extra_tag b e p (m1_tag _ _ H1)).
+  destruct (is_extra b (pat_tag p, true, true)); simpl negb; cbv iota.
+  - apply IH. exact H2.
+  - change (m1 p e && mall (erase_pats b ps) (erase_extra b obs) = true). rewrite H1. simpl. apply IH. exact H2.
+Qed.
+
+(* finish: H is an accepted pattern list; the goal is the bare language on the erased journal *)
+Ltac by_erase H b :=
+  accept_inv H;
+  match goal with
+  | M : mall ?ps ?obs = true |- _ =>
+      apply (mall_erase b) in M; cbv -[mall erase_extra] in M;
+      unfold bare_accepts; cbv -[mall erase_extra];
+      rewrite M; repeat (match goal with |- context [mall ?p ?x] => destruct (mall p x) end); reflexivity
+  end.
+
 Lemma step_extra : forall s o obs s',
   step gen_cfg AT s o obs = Some s' ->
   bare_accepts o (erase_extra (is_bracket s o) obs) = true.
@@ -160,54 +196,37 @@ Proof.
   - (* statement *)
     destruct g; cbn [negb andb] in H |- *.
     + destruct okf; cbn [negb] in H; [|discriminate].
-      unfold bare_accepts. cbn [o_k o_ok].
       destruct pp.
-      { (* prepared by the caller: no bracket (the erasure of a bracket would not matter: none of its events occurs) *)
-        destruct (route gen_cfg true ty); simpl in H; try discriminate; destruct q;
-          accept_inv H; unfold stmt_tag in M; inv_mall M;
-          destruct (tx_get c s) as [[|d z]|]; reflexivity. }
+      { destruct (route gen_cfg true ty); simpl in H; try discriminate; destruct q;
+          destruct (tx_get c s) as [[|d z]|]; by_erase H true || by_erase H false. }
       destruct (tx_get c s) as [[|d z]|] eqn:Tx.
-      * (* local transaction *)
-        destruct vp.
-        -- destruct (route gen_cfg true ty); simpl in H; try discriminate; destruct q;
-             accept_inv H; unfold stmt_tag in M; inv_mall M; reflexivity.
-        -- destruct (route gen_cfg true ty); try discriminate; destruct (img_nz obs); destruct q; simpl in H;
-             try discriminate; accept_inv H; unfold direct_tag in M; inv_mall M; reflexivity.
-      * (* branch transaction *)
-        destruct vp.
-        -- destruct (route gen_cfg true ty); simpl in H; try discriminate; destruct q;
-             accept_inv H; unfold stmt_tag in M; inv_mall M; reflexivity.
-        -- destruct (route gen_cfg true ty); destruct (img_nz obs); destruct q; simpl in H;
-             try discriminate; accept_inv H; unfold direct_tag in M; inv_mall M; reflexivity.
-      * (* autocommit: the proxy's bracket *)
-        destruct (N.eqb c 0); cbn [negb] in H; [|discriminate].
-        destruct vp.
-        -- destruct (route gen_cfg true ty); simpl in H; try discriminate; destruct q;
-             accept_inv H; unfold stmt_tag in M; simpl in M; inv_mall M; reflexivity.
-        -- destruct (route gen_cfg true ty); destruct (img_nz obs); destruct q; simpl in H;
-             try discriminate; accept_inv H; unfold direct_tag, undo_pats in M; simpl in M; inv_mall M; reflexivity.
+      * destruct (route gen_cfg true ty); try discriminate; destruct vp; destruct (img_nz obs); destruct (has_aux obs); destruct q;
+          simpl in H; try discriminate; by_erase H false.
+      * destruct (route gen_cfg true ty); destruct vp; destruct (img_nz obs); destruct (has_aux obs); destruct q;
+          simpl in H; try discriminate; by_erase H false.
+      * destruct (N.eqb c 0); cbn [negb] in H; [|discriminate].
+        destruct (route gen_cfg true ty); destruct vp; destruct (img_nz obs); destruct (has_aux obs); destruct q;
+          simpl in H; try discriminate; by_erase H true.
     + rewrite route_out in H.
       destruct (bare_accepts {| o_k := OStmt ty q; o_conn := c; o_gtx := false; o_ok := okf; o_prep := pp; o_vp := vp |} obs) eqn:B; [|discriminate].
       apply bare_erase. assumption.
   - (* begin *)
     destruct g; cbn [negb] in H.
-    + destruct (tx_get c s); [discriminate|]. destruct okf; [|discriminate].
-      accept_inv H. inv_mall M. reflexivity.
+    + destruct (tx_get c s); [discriminate|]. destruct okf; [|discriminate]. by_erase H false.
     + destruct (bare_accepts {| o_k := OBegin; o_conn := c; o_gtx := false; o_ok := okf; o_prep := pp; o_vp := vp |} obs) eqn:B; [|discriminate].
       apply bare_erase. assumption.
   - (* commit *)
     destruct (tx_get c s) as [[|d z]|].
     + destruct (bare_accepts {| o_k := OCommit; o_conn := c; o_gtx := g; o_ok := okf; o_prep := pp; o_vp := vp |} obs) eqn:B; [|discriminate].
       apply bare_erase. assumption.
-    + destruct okf; [|discriminate]. accept_inv H.
-      destruct d; destruct z; unfold commit_pats, undo_pats in M; simpl in M; inv_mall M; reflexivity.
+    + destruct okf; [|discriminate]. destruct d; destruct z; by_erase H false.
     + destruct (bare_accepts {| o_k := OCommit; o_conn := c; o_gtx := g; o_ok := okf; o_prep := pp; o_vp := vp |} obs) eqn:B; [|discriminate].
       apply bare_erase. assumption.
   - (* rollback *)
     destruct (tx_get c s) as [[|d z]|].
     + destruct (bare_accepts {| o_k := ORollback; o_conn := c; o_gtx := g; o_ok := okf; o_prep := pp; o_vp := vp |} obs) eqn:B; [|discriminate].
       apply bare_erase. assumption.
-    + destruct okf; [|discriminate]. accept_inv H. inv_mall M. reflexivity.
+    + destruct okf; [|discriminate]. by_erase H false.
     + destruct (bare_accepts {| o_k := ORollback; o_conn := c; o_gtx := g; o_ok := okf; o_prep := pp; o_vp := vp |} obs) eqn:B; [|discriminate].
       apply bare_erase. assumption.
 Qed.
